@@ -19,6 +19,7 @@ import (
 
 func init() {
 	vpRegister("c02_parsed", vpH_c02_parsed)
+	vpRegister("c02_resigned", vpH_c02_resigned)
 }
 
 func vpDocMap(kv ...any) *ordered.MapSA {
@@ -140,6 +141,56 @@ func vpH_c02_parsed() {
 			}
 		} else {
 			vpAssert(false, "the step list keeps its length (YAML)")
+		}
+	}
+}
+
+// Documents that were signed before (they carry `signature:` blocks that are
+// stale for the present key) and plugin sources in unusual but legal spellings
+// (trailing or doubled slashes, dot segments): after signing now, what is
+// marshalled and re-parsed verifies.
+func vpH_c02_resigned() {
+	ctx := context.Background()
+	doc := vpDocMap("command", "c")
+	stale := vpBool()
+	if stale {
+		doc.Set("signature", vpDocMap("algorithm", "EdDSA", "signed_fields", []any{"command", "env", "matrix", "plugins", "repository_url"}, "value", "stale"))
+	}
+	srcs := []string{"thing", "o/t/", "o//t#v1", "o/t/#v1", "./x//y", "a/b/c/", "o/./t", "github.com/o/t-buildkite-plugin/#v2"}
+	if vpBool() {
+		doc.Set("plugins", []any{srcs[vpInt(0, len(srcs)-1)], vpDocMap(srcs[vpInt(0, len(srcs)-1)], vpDocMap("k", "v"))})
+	}
+	step := new(pipeline.CommandStep)
+	if err := ordered.Unmarshal(doc, step); err != nil {
+		return
+	}
+	s := vpSigSigner(1)
+	steps := pipeline.Steps{step}
+	err := SignSteps(ctx, steps, s, "r")
+	vpAssert(err == nil && step.Signature != nil, "signing a parsed (possibly already signed) step succeeds")
+	if err != nil || step.Signature == nil {
+		return
+	}
+	vpAssert(Verify(ctx, step.Signature, s, &CommandStepWithInvariants{CommandStep: *step, RepositoryURL: "r"}) == nil, "the step verifies in memory under the key that signed it now")
+	p := &pipeline.Pipeline{Steps: steps}
+	for leg := 0; leg < 2; leg++ {
+		var n yaml.Node
+		if leg == 0 {
+			b, merr := json.Marshal(p)
+			vpAssert(merr == nil && yaml.Unmarshal(b, &n) == nil, "the signed pipeline marshals to readable JSON")
+		} else {
+			b, merr := yaml.Marshal(p)
+			vpAssert(merr == nil && yaml.Unmarshal(b, &n) == nil, "the signed pipeline marshals to readable YAML")
+		}
+		p2 := new(pipeline.Pipeline)
+		if ordered.Unmarshal(&n, p2) != nil || len(p2.Steps) != 1 {
+			vpAssert(false, "the marshalled pipeline re-parses to one step without warning")
+			continue
+		}
+		c2, isCmd := p2.Steps[0].(*pipeline.CommandStep)
+		vpAssert(isCmd && c2.Signature != nil, "the step is still a signed command step after the round trip")
+		if isCmd && c2.Signature != nil {
+			vpAssert(Verify(ctx, c2.Signature, s, &CommandStepWithInvariants{CommandStep: *c2, RepositoryURL: "r"}) == nil, "a step signed now (stale earlier signature replaced, unusual source spellings) still verifies after marshal and re-parse")
 		}
 	}
 }
